@@ -41,6 +41,30 @@ CLAIMED = {
           'module, pickle.find_class, process creation), a canary firing, new modules, or a non-plain unpickling result. '
           'The insecure unpickler is run once to prove the monitors fire.',
           'Allow-list hard-coded in the check; lookup sweep is lookup-only.', 'DESIGN.md 3/C13'),
+  'C01': ('exploration', 'differential recorder-vs-generated-sequence oracle under exhaustive single-cut segmentation of executed streams',
+          'Generated datapoint sequences (non-ASCII names, every float() spelling, ints, +-inf, batching into lines / datagrams / '
+          'pickle frames of protocols 0-5) are encoded by an independent encoder and fed to fresh real listener protocols whole, '
+          'byte-at-a-time, at every single cut position, at every cut pair (short streams) and at random k-cuts; the recorder on '
+          'events.metricReceived must equal the generated sequence with bit-identical values.',
+          'protobuf listener not runnable; integers compared after float().', 'DESIGN.md 3/C01'),
+  'C11': ('exploration', 'escape monitor + disconnect monitor + by-construction expectation cross-checked with a reference decoder',
+          'Streams interleaving uniquely named well-formed items with a malformed zoo (invalid UTF-8, field counts, non-finite '
+          'numbers, truncated/garbage pickles, wrong shapes/types, random opcode programs, deep nesting, over-limit frames) and '
+          'byte-level mutations of valid streams are fed to the real line/UDP/pickle protocols under whole / bytewise / every '
+          'single cut / random cuts; any exception leaving dataReceived/datagramReceived, any disconnect without an over-long '
+          'frame, any lost/altered neighbour or accepted malformed item is a violation.',
+          'Items whose acceptance the statement leaves open are declared unspecified (either outcome, no exception).', 'DESIGN.md 3/C11'),
+  'C12': ('exploration', 'differential against a 15-line admission model on the real listeners with generated list files',
+          'Generated whitelist/blacklist files (comments, blanks, invalid regexes) are loaded through the real RegexList reload '
+          'path, batches with NaN/inf values, -1/fractional/negative timestamps are sent through line, UDP and pickle listeners '
+          'for MIN_TIMESTAMP_RESOLUTION 0/1/10/60 on a virtual clock; recorder and blacklist/whitelist counters must equal the model.',
+          'Negative timestamps other than -1 are unspecified.', 'DESIGN.md 3/C12'),
+  'C15': ('exploration', 'round-trip oracle: real client protocol bytes fed into the real listener protocol',
+          'Queues of uniquely named datapoints (random 64-bit doubles, boundary magnitudes, ints, bools, +-inf, fractional '
+          'timestamps) are sent by the real CarbonClientFactory/line+pickle client protocols on a fake reactor for batch sizes '
+          '1,2,3,7,500 and the produced bytes (also re-segmented) are ingested by the real listeners; names, order, count, '
+          'timestamps and values are compared per the statement (exact arithmetic for the line tolerance).',
+          'protobuf pair not runnable.', 'DESIGN.md 3/C15'),
 }
 
 NOT_YET = 'check not built yet (work in progress; see DESIGN.md)'
